@@ -370,6 +370,7 @@ class PersLandscapeExact(PersLandscape):
         verboseprint("self.critical_pairs was empty and algorthim was executed")
         self.max_depth = len(L)
         self.critical_pairs = [item[1:-1] for item in L]
+        return self.critical_pairs
 
     def compute_landscape_by_depth(self, depth: int) -> list:
         """
